@@ -80,6 +80,9 @@ def newBuffer (s : Ledger) (content : Bytes) : Ledger × Out :=
 def release (s : Ledger) (h : Nat) (ids : List Nat) : Ledger :=
   { s with live := s.live.filter (fun i => !ids.contains i), objs := remove h s.objs }
 
+/-- `CString::new` succeeds iff the bytes contain no NUL -/
+def cStringOk (b : Bytes) : Bool := !b.contains 0
+
 /-- `pinned = true`: the frees as on the pinned tree (buffer data and metadata struct leak) -/
 def step (pinned : Bool) (s : Ledger) : Call → Ledger × Out
   | .bufferTest => newBuffer s [0x42, 0x43, 0x44, 0x45]
@@ -101,8 +104,12 @@ def step (pinned : Bool) (s : Ledger) : Call → Ledger × Out
   | .getMetadata h =>
     (match lookup h s.objs with
      | some (.bundle b _) =>
-       let (s', m) := addObj s Obj.mdata 3
-       (s', .mdata m (printEid b.primary.src) (printEid b.primary.dst) b.primary.ts b.primary.seq b.primary.lifetime)
+       -- a C string cannot hold a NUL byte: `CString::new` fails and the function answers null,
+       -- nothing allocated (fix F13; the pinned tree `.unwrap()`ed and aborted the process)
+       if cStringOk (printEid b.primary.src) && cStringOk (printEid b.primary.dst) then
+         let (s', m) := addObj s Obj.mdata 3
+         (s', .mdata m (printEid b.primary.src) (printEid b.primary.dst) b.primary.ts b.primary.seq b.primary.lifetime)
+       else (s, .null)
      | _ => (s, .misuse))
   | .payload h =>
     (match lookup h s.objs with
